@@ -273,8 +273,10 @@ def verifySide (W : World) (db : DB) (chain : List Nat) : Bool :=
   | [] => true
   | c0 :: _ =>
     let b0 := W.blk c0
+    -- getCaravelParams: the first protocolRoundBack (8) blocks ask the canonical chain by number, later ones take the
+    -- version from the side chain's own block 8 back; execution sees the side chain's own ancestry (sideChainView)
     b0.num != 0 && getBlock W db b0.parent (b0.num - 1) && db.st (W.blk b0.parent).root
-      && chain.all fun id => versionOK W db (W.blk id).num && (W.blk id).execOK
+      && ((chain.take 8).all fun id => versionOK W db (W.blk id).num) && (chain.all fun id => (W.blk id).execOK)
 
 /-- write the side-chain blocks that are not fully present -/
 def sideWrites (W : World) (db : DB) : List Nat → List Wr
